@@ -285,7 +285,7 @@ impl E2Run for Dns {
     fn budget(&self, tier: &Tier) -> (u64, u64) {
         match tier {
             Tier::Quick => (100_000, 50),
-            Tier::Thorough => (8_000_000, 3000),
+            Tier::Thorough => (8_000_000, 1200),
         }
     }
 
